@@ -919,6 +919,9 @@ var c07IncCounter int
 // programs accepted by model and compiler that call a nested pipeline: run in Tier A afterwards
 var c07LastProgReq string
 
+// did the last program asked about satisfy every hypothesis of program_sound_partial?
+var c07LastProgOk bool
+
 var c07NestedRun []string
 
 // the C07.progrun request (model's checked run) of a program text queued in c07NestedRun
@@ -1222,6 +1225,7 @@ func c07JudgePipe(c *Ctx, p *c07Pipe, class string) {
 		parts = append(parts, top.enc(), fmt.Sprint(len(chain)+1))
 		c07LastProgReq = strings.Join(parts, " ")
 		rep := c.Drv.Ask("C07.prog", strings.Join(parts, " "))
+		c07LastProgOk = strings.Contains(rep, "progOk=true")
 		f := strings.Fields(rep)
 		if len(f) < 3 {
 			r.note("bad reply of C07.prog: %q", rep)
@@ -1247,6 +1251,15 @@ func c07JudgePipe(c *Ctx, p *c07Pipe, class string) {
 	if err := c07CallGraphPaths(src+p.topCall(), paths); err != nil {
 		if strings.Contains(err.Error(), "cannot be bound inside an untyped map") || strings.Contains(err.Error(), "cannot be assinged to untyped map: contains reference") {
 			r.hist("pipe_invoke_fails_pipeline_struct_into_untyped_map")
+			// the hypothesis `umapPipe` of program_sound_partial stands in for the unmodelled composition of
+			// bindings: it must exclude every program the real resolver refuses for this reason
+			if c07LastProgOk {
+				r.violate(Violation{Kind: "correspondence", Key: "C07:prog:umap-hypothesis-does-not-cover",
+					What:  "a program the real resolver refuses (reference inside an untyped map) satisfies every hypothesis of program_sound_partial: " + firstLine(err.Error()),
+					Input: map[string]interface{}{"program": src + p.topCall(), "error": err.Error()}, Broken: "Props.C07.program_sound_partial (umapPipe)"})
+			} else {
+				r.hist("pipe_invoke_fails_untyped_map_excluded_by_umapPipe")
+			}
 			r.violate(Violation{Kind: "property", Key: c07UntypedMapKey,
 				What:  "a reference to struct-typed outputs of a nested pipeline bound to an untyped map parameter is accepted by the compiler, but the pipeline cannot be invoked: " + firstLine(err.Error()),
 				Input: map[string]interface{}{"program": src + p.topCall(), "error": err.Error()}})
@@ -2001,7 +2014,7 @@ func c07Pipelines(c *Ctx) {
 	c07UntypedMapWitness(c)
 	c07WildArityStream(c)
 	c07UnusedInputStream(c)
-	n := 700
+	n := 600
 	if c.Thorough {
 		n = 5000
 	}
@@ -2013,7 +2026,7 @@ func c07Pipelines(c *Ctx) {
 		m = 3000
 	}
 	c07StageRetainStream(c, m)
-	k := 40
+	k := 30
 	if c.Thorough {
 		k = 400
 	}
